@@ -355,6 +355,12 @@ def parse_cmd_pkt(line: bytes) -> tuple[bytes, list[bytes]]:
     return cmd, args[:-1].split(b"\0")
 
 
+# The longest pkt-line a conforming implementation may send (git's
+# LARGE_PACKET_MAX): 65516 bytes of payload after the 4-byte length prefix.
+MAX_PKT_LINE_LEN = 65520
+MAX_PKT_LINE_DATA_LEN = MAX_PKT_LINE_LEN - 4
+
+
 def pkt_line(data: bytes | None) -> bytes:
     """Wrap data in a pkt-line.
 
@@ -362,9 +368,19 @@ def pkt_line(data: bytes | None) -> bytes:
       data: The data to wrap, as a str or None.
     Returns: The data prefixed with its length in pkt-line format; if data was
         None, returns the flush-pkt ('0000').
+
+    Raises:
+      ValueError: if data is longer than MAX_PKT_LINE_DATA_LEN bytes. Such a
+        payload does not fit a single pkt-line; the caller has to split it
+        (see Protocol.write_sideband).
     """
     if data is None:
         return b"0000"
+    if len(data) > MAX_PKT_LINE_DATA_LEN:
+        raise ValueError(
+            f"pkt-line payload of {len(data)} bytes exceeds the maximum of "
+            f"{MAX_PKT_LINE_DATA_LEN} bytes"
+        )
     return f"{len(data) + 4:04x}".encode("ascii") + data
 
 
@@ -564,7 +580,14 @@ class Protocol:
         """
         if self._readahead is not None:
             raise ValueError("Attempted to unread multiple pkt-lines.")
-        self._readahead = BytesIO(pkt_line(data))
+        if data is None:
+            self._readahead = BytesIO(pkt_line(None))
+        else:
+            # Not pkt_line(): a line that was read from a peer may be longer
+            # than the MAX_PKT_LINE_DATA_LEN we are willing to send.
+            if len(data) + 4 > 0xFFFF:
+                raise ValueError("Attempted to unread an oversized pkt-line.")
+            self._readahead = BytesIO(b"%04x" % (len(data) + 4) + data)
 
     def read_pkt_seq(self) -> Iterable[bytes]:
         """Read a sequence of pkt-lines from the remote git process.
